@@ -13,7 +13,7 @@
    process-wide pseudo random suffix; the model takes the names as a parameter ([tmps], one
    per change) and the theorems assume each is absent from its directory when used.
 
-   Not modelled: ReceiveOpt.Filter / MetadataOnly / NotifyHashed (nil), Differ other than
+   Not modelled: ReceiveOpt.Filter / MetadataOnly / NotifyHashed (nil; Merge IS modelled), Differ other than
    DiffMetadata, DAC permission checks (the receiver runs as root), concurrency: the walk of
    the old destination is taken up front (see the note at [old_listing]). *)
 From Coq Require Import List NArith Bool.
@@ -480,21 +480,23 @@ Fixpoint recv_loop (c : ctx) (dl : bool) (idx : nat) (pks : list packet) (st : r
   | pk :: r => recv_loop c dl (S idx) r (recv_packet c dl idx pk st)
   end.
 
-Definition rstate_init (f : fs) (d0 : N) (tmps : list bytes) (budget : option nat) : rstate :=
+Definition rstate_init (f : fs) (d0 : N) (merge : bool) (tmps : list bytes) (budget : option nat) : rstate :=
   {| r_fs := f; r_vstk := vinit; r_seen := []; r_files := []; r_pipes := []; r_next := 0;
-     r_old := old_listing f d0; r_rmdir := []; r_dirtimes := []; r_tmps := tmps; r_closed := false;
+     r_old := if merge then [] else old_listing f d0; r_rmdir := []; r_dirtimes := []; r_tmps := tmps; r_closed := false;
      r_waited := false; r_asyncerr := false; r_dead := None; r_budget := budget; r_applied := O; r_out := Running |}.
 
 (* the receive call on destination directory [d0] of process root [root]; [dl]: the string
-   [dest] itself names a symlink to [d0] *)
-Definition recv_run (f : fs) (root d0 : N) (dl : bool) (tmps : list bytes) (pks : list packet) (budget : option nat) : rstate :=
-  recv_loop {| c_root := root; c_cwd := d0 |} dl 0 pks (rstate_init f d0 tmps budget).
+   [dest] itself names a symlink to [d0]; [merge]: ReceiveOpt.Merge (the old content of the
+   destination is not walked: nothing is deleted, every entry of the stream is handed to the
+   disk writer) *)
+Definition recv_run (f : fs) (root d0 : N) (dl merge : bool) (tmps : list bytes) (pks : list packet) (budget : option nat) : rstate :=
+  recv_loop {| c_root := root; c_cwd := d0 |} dl 0 pks (rstate_init f d0 merge tmps budget).
 
-Definition recv_fs (f : fs) (root d0 : N) (dl : bool) (tmps : list bytes) (pks : list packet) : rstate :=
-  recv_run f root d0 dl tmps pks None.
+Definition recv_fs (f : fs) (root d0 : N) (dl merge : bool) (tmps : list bytes) (pks : list packet) : rstate :=
+  recv_run f root d0 dl merge tmps pks None.
 (* the file system after the first [j] effects (HandleChange calls, data writes, Wait) *)
-Definition recv_fs_prefix (f : fs) (root d0 : N) (dl : bool) (tmps : list bytes) (pks : list packet) (j : nat) : fs :=
-  r_fs (recv_run f root d0 dl tmps pks (Some j)).
+Definition recv_fs_prefix (f : fs) (root d0 : N) (dl merge : bool) (tmps : list bytes) (pks : list packet) (j : nat) : fs :=
+  r_fs (recv_run f root d0 dl merge tmps pks (Some j)).
 
 (* Receive returns nil iff the sender's FIN arrived after Wait completed *)
 Definition recv_succeeds (st : rstate) : bool :=
